@@ -678,6 +678,54 @@ def d39():
     return with_tree(run)
 
 
+def d40():
+    """ZIP index cache: a store that opens but has lost entries (dbm.dumb directory file cut at a line boundary or emptied)
+    is taken for a complete index: members it no longer lists 'do not exist'"""
+    def run(d):
+        import zipfile as zf
+
+        os.mkdir(os.path.join(d, "dir"))
+        zp = os.path.join(d, "dir", "arch.zip")
+        with zf.ZipFile(zp, "w") as z:
+            z.writestr("m.txt", "hello")
+            z.writestr("sub/n.txt", "world")
+        cfg = make_config(root=d, conf="conf/pygopherd.conf")
+        cfg.set("handlers.dir.DirHandler", "cachetime", "0")
+        cfg.set("handlers.ZIP.ZIPHandler", "enabled", "true")
+        hl = cfg.get("handlers.HandlerMultiplexer", "handlers")
+        cfg.set("handlers.HandlerMultiplexer", "handlers", hl.replace("[", "[ZIP.ZIPHandler, ", 1))
+        ref, _, _ = request(b"/dir/arch.zip/sub/n.txt\r\n", cfg)      # writes the index cache
+        base = os.path.join(d, "dir", ".cache.pygopherd.zip3.arch.zip")
+        if not os.path.exists(base):
+            open(base, "wb").close()
+        dirf = base + ".dir"
+        if not os.path.exists(dirf):
+            return False, "no dbm.dumb directory file on this Python (other backend)"
+        lines = open(dirf, "rb").read().splitlines(keepends=True)
+        results = []
+        for keep in (0, 1, max(1, len(lines) // 2)):
+            open(dirf, "wb").write(b"".join(lines[:keep]))
+            bak = base + ".bak"
+            if os.path.exists(bak):
+                os.unlink(bak)
+            future = os.stat(zp).st_mtime + 5
+            for f in os.listdir(os.path.join(d, "dir")):
+                if f.startswith(".cache.pygopherd.zip3."):
+                    os.utime(os.path.join(d, "dir", f), (future, future))
+            out, esc, _ = request(b"/dir/arch.zip/sub/n.txt\r\n", cfg)
+            results.append((keep, out == ref, type(esc).__name__ if esc else None))
+            # restore a complete store for the next cut
+            for f in os.listdir(os.path.join(d, "dir")):
+                if f.startswith(".cache.pygopherd.zip3.") and f != os.path.basename(base):
+                    os.unlink(os.path.join(d, "dir", f))
+            os.utime(base, (1, 1))
+            request(b"/dir/arch.zip/sub/n.txt\r\n", cfg)
+        bad = any(not same or esc for _, same, esc in results)
+        return bad, f"(lines kept, same answer, escaped) = {results}"
+
+    return with_tree(run)
+
+
 ALL = {k: v for k, v in list(globals().items()) if k.startswith("d") and k[1:2].isdigit() and callable(v)}
 ALL.pop("d8", None)
 
